@@ -269,4 +269,37 @@ theorem C03_guards_present :
        ("svgtree/mod.rs", "next"), ("svgtree/parse.rs", "parse_svg_use_element"),
        ("svgtree/parse.rs", "parse_svg_use_element"), ("svgtree/parse.rs", "parse_svg_use_element")] := by decide +kernel
 
+/-! ### the pre-pass that cuts self-referencing patterns cannot crash
+
+`fix_recursive_patterns` asks `find_recursive_pattern` for a node whose paint links back to the pattern
+and overwrites that node's OWN attribute (`attribute_id(aid).unwrap()`).  The unwrap is safe exactly
+when the search reads the own attribute; a search along the ancestors returns nodes that merely inherit
+the link (a pattern defined inside a group painted with it). -/
+
+/-- a pattern descendant: the link written on it, and the link it would inherit from its closest ancestor -/
+structure PaintNode where
+  own : Option Nat
+  inherited : Option Nat
+deriving DecidableEq, Repr
+
+/-- `find_recursive_pattern` for pattern `p` over its descendants; `alongAncestors` = `find_attribute` -/
+def findRecursive (alongAncestors : Bool) (p : Nat) (descendants : List PaintNode) : Option PaintNode :=
+  descendants.find? (fun n => (if alongAncestors then n.own.orElse (fun _ => n.inherited) else n.own) == some p)
+
+/-- **the node handed to the rewrite carries the attribute** (own-attribute search, as in the current
+    sources: the translator counts the reads) — `attribute_id(aid).unwrap()` cannot fail -/
+theorem C03_recursive_pattern_rewrite_safe (p : Nat) (ds : List PaintNode) (n : PaintNode)
+    (h : findRecursive false p ds = some n) :
+    n.own = some p ∧ Generated.recursivePatternInheritedReads = 0 ∧ 0 < Generated.recursivePatternOwnReads := by
+  refine ⟨?_, by decide, by decide⟩
+  unfold findRecursive at h
+  have := List.find?_some h
+  simpa using this
+
+/-- a search along the ancestors hands out a node without the attribute: the unwrap panics
+    (pattern 7 defined inside a group filled with pattern 7) -/
+theorem C03_inherited_search_breaks_rewrite :
+    ∃ n, findRecursive true 7 [⟨none, some 7⟩] = some n ∧ n.own = none := by
+  exact ⟨⟨none, some 7⟩, by decide, rfl⟩
+
 end Resvg.Props.C03
